@@ -13,4 +13,4 @@ ASSUMPTIONS = [
 
 
 def correspondence(ctx, thorough, search):
-    return run_body(ctx, thorough, search, "C16", stages={1, 2, 3})
+    return run_body(ctx, thorough, search, "C16", stages={1, 2, 3, 6, 7})
